@@ -70,6 +70,9 @@ MEMBERS = [
     # a parameter annotated with a type of the user's own module (an Enum): resolvable only in that module's namespace
     ("    def set_mode{s}(self, mode: Mode = Mode.FAST) -> str:\n        '''Sets the mode.'''\n        return mode.name\n",
      ("set_mode{s}", [("mode", "opt")])),
+    # a property declared with a subclass of `property` (as many libraries' cached / typed properties are)
+    ("    @myproperty\n    def fancy{s}(self) -> int:\n        '''Fancy.'''\n        return 7\n",
+     ("fancy{s}", [])),
     # inherited public methods overridden without a docstring of their own: the description is the inherited one (inspect.getdoc)
     ("    def lock(self) -> None:\n        super().lock()\n", "override:lock"),
     ("    async def flush(self, return_exceptions: bool = False) -> None:\n        await super().flush(return_exceptions)\n", "override:flush"),
@@ -111,7 +114,7 @@ def build_class(case: dict):
     if "members" not in case:
         return base, table, private, docs
     s = case.get("suffix", "")
-    src = ("from __future__ import annotations\n" if case.get("postponed") else "") + "import enum\nfrom typing import Optional, Union\nclass Mode(enum.Enum):\n    FAST = 'fast'\n    SLOW = 'slow'\n\nclass Mid(Base):\n    '''Intermediate.'''\n    pass\n\n"
+    src = ("from __future__ import annotations\n" if case.get("postponed") else "") + "import enum\nfrom typing import Optional, Union\nclass myproperty(property):\n    pass\n\nclass Mode(enum.Enum):\n    FAST = 'fast'\n    SLOW = 'slow'\n\nclass Mid(Base):\n    '''Intermediate.'''\n    pass\n\n"
     parent = "Mid" if case.get("depth", 1) == 2 else "Base"
     src += f"class GenPool({parent}):\n    '''Generated pool class.'''\n"
     for i in case["members"]:
@@ -163,7 +166,7 @@ class C16Engine(Engine):
             "subclass, or width < 40 or > 200. Distinct = case hash.")
     assumptions = ["the session is driven in-process through a real asyncio.StreamReader and a recording writer (vt/ctl/harness.py)",
                    "API table written from the documentation, independent of inspect.getmembers"]
-    bounds = {"widths": "1..1000", "generated members": "<=4 of 24 templates", "subclass depth": "<=2"}
+    bounds = {"widths": "1..1000", "generated members": "<=4 of 25 templates", "subclass depth": "<=2"}
 
     def strategies(self, tier: str):
         return [("default", st.binary(min_size=NB, max_size=NB).map(decode), 1200 if tier == "quick" else 30000)]
@@ -304,7 +307,7 @@ class C16Engine(Engine):
             calls = {"extra_count": ("extra-count{s} 4 --label z", "4z"), "toggle_thing": ("toggle-thing{s} --fast", "True"),
                      "sum_all": ("sum-all{s} 1 2 3", "6"), "wait_a_bit": ("wait-a-bit{s} --rounds 3", "3"), "extra_info": ("extra-info{s}", "info"),
                      "knob": ("knob{s} 5", "ok"), "scale": ("scale{s} 21 --offset 1", "43"), "filter": ("filter{s}- --pattern q", "q"),
-                     "deep__scan": ("deep--scan{s} 2", "2"), "shift_by": ("shift-by{s} 3 --times 2", "6"), "tag_it": ("tag-it{s} ab --times 2", "abab"), "maybe_num": ("maybe-num{s} --n 5 --label q", "5-q"), "ratio_of": ("ratio-of{s} 1 --whole 4", "0.25"), "set_mode": ("set-mode{s} --mode slow", "SLOW")}
+                     "deep__scan": ("deep--scan{s} 2", "2"), "shift_by": ("shift-by{s} 3 --times 2", "6"), "tag_it": ("tag-it{s} ab --times 2", "abab"), "maybe_num": ("maybe-num{s} --n 5 --label q", "5-q"), "ratio_of": ("ratio-of{s} 1 --whole 4", "0.25"), "set_mode": ("set-mode{s} --mode slow", "SLOW"), "fancy": ("fancy{s}", "7")}
             for name in sorted(table):
                 base = name[: len(name) - len(sfx)] if sfx and name.endswith(sfx) else name
                 key = base.rstrip("_") if base.rstrip("_") in calls else base
